@@ -17,6 +17,7 @@ import (
 	"strconv"
 	"strings"
 	"sync"
+	"sync/atomic"
 	"time"
 )
 
@@ -67,6 +68,9 @@ type W struct {
 	N     int
 
 	deadline time.Time
+	tick     int64
+	// CurCase, if set, describes the case being executed (read by the hang watchdog only).
+	CurCase func() (string, interface{})
 	res      workerResult
 	distinct map[uint64]struct{}
 	dcap     int
@@ -208,6 +212,35 @@ func (w *W) flush() {
 		fmt.Fprintln(os.Stderr, "vx: write:", err)
 		os.Exit(2)
 	}
+}
+
+// Tick tells the watchdog that progress was made.
+func (w *W) Tick() { atomic.AddInt64(&w.tick, 1) }
+
+// StartWatchdog reports a hang (as a violation of class "hang") if no Tick is
+// seen for `limit`; the case is taken from CurCase.
+func (w *W) StartWatchdog(limit time.Duration) {
+	go func() {
+		last := atomic.LoadInt64(&w.tick)
+		lastChange := time.Now()
+		for {
+			time.Sleep(2 * time.Second)
+			cur := atomic.LoadInt64(&w.tick)
+			if cur != last {
+				last, lastChange = cur, time.Now()
+				continue
+			}
+			if time.Since(lastChange) > limit {
+				detail, rep := "no progress", interface{}(nil)
+				if w.CurCase != nil {
+					detail, rep = w.CurCase()
+				}
+				w.Violation("hang", fmt.Sprintf("call did not return within %v: %s", limit, detail), rep)
+				w.flush()
+				os.Exit(0)
+			}
+		}
+	}()
 }
 
 // Hash is FNV-1a 64.
